@@ -51,7 +51,7 @@ CLAIMS = {
  "C27": ("MakeConnWithCompleteHandshake: nil for unsupported suites, exact panic condition, state fields, sequence numbers, and the mirror wiring of keys/IVs/MACs and direction flags per role through call-site anchors (defect found and fixed, 4d378a7); cipherSuiteByID searches the uTLS suite table; prepareCipherSpec/changeCipherSpec/incSeq.",
          "Suite constructors are opaque (assume-pure); keysFromMasterSecret is trusted; that two record layers then interoperate is outside."),
  "C28": ("GetOutKeystream: modifies nothing (does not change what is sent next), error for non-AEAD ciphers, result is Seal(out.cipher, nonce=out.seq, zeros(n)), i.e. the keystream bytes under the symbolic AEAD law.",
-         "halfConn.encrypt (thin contract) seals each record under the current sequence number as nonce when the suite has no explicit nonce (TLS 1.3, ChaCha20) -- the 8-byte explicit-nonce case of TLS 1.2 AES-GCM is not decided; that real AEADs satisfy the keystream law is assumed (symbolic)."),
+         "xorNonceAEAD.Seal restores its nonce mask (sealing does not change the cipher state); halfConn.encrypt (thin contract) seals each record under the current sequence number as nonce when the suite has no explicit nonce (TLS 1.3, ChaCha20) -- the 8-byte explicit-nonce case of TLS 1.2 AES-GCM is not decided; that real AEADs satisfy the keystream law is assumed (symbolic)."),
  "C29": ("Roller.Dial: starts with WorkingHelloID when set, then each configured id at most once (loop invariant over the shuffled list), returns the first connection whose handshake succeeds with SNI set, records that id; TCP dial error returned immediately; NewRoller, UClient, SetSNI, PRNG constructors.",
          "Concurrent Dials (data races) are outside sequential contracts; observation: the working id is tried again inside the loop (same id twice per call) when it also appears in HelloIDs -- recorded in DESIGN.md."),
  "C30": ("Intn/Int63n/Int63/Uint64/Perm/Read ranges, Range incl. the overflow corner (check overflow), FlipWeightedCoin in floating point (weight<=0 never, weight>=1 iff Int63()!=0).",
